@@ -23,6 +23,13 @@
 (*            -> newNTSKEMsg -> Write                                      *)
 (*   csptpsrv core/server/server_csptp_ip.go runCSPTPServerIP              *)
 (*   csptpcli core/client/client_csptp_ip.go MeasureClockOffset            *)
+(*   scsrv    core/server/server_scion.go runSCIONServer (the listeners    *)
+(*            on the server port and on the end-host port 30041): slayers  *)
+(*            decoding, SCMP responder, end-host forwarder, SPAO           *)
+(*            authenticator, NTP request, reply over the reversed path     *)
+(*   sccli    core/client/client_scion.go measureClockOffsetSCION:         *)
+(*            slayers decoding, address check, e2e options 253 (receive    *)
+(*            timestamp as control-message bytes) and authenticator, NTP   *)
 (*                                                                         *)
 (* An abstract input is a record of small enumerations, ONE PER PARSING    *)
 (* DECISION of the code.  It is revealed lazily: the stage that looks at   *)
@@ -49,20 +56,30 @@ CONSTANTS
   MaxKe,        \* NTS-KE records revealed per stream (before the terminator)
   MaxCases,     \* crafted inputs per behaviour (each followed by a sentinel)
   Wide,         \* TRUE: full class alphabets; FALSE: the reduced ones (quick tier)
+  ScDev,        \* SCION datagrams: how many dimensions may deviate from the canonical datagram at once
   \* ---- switches: TRUE = as written in the pinned tree
   ExtLenZeroLoops,        \* nts.DecodePacket / authenticate: pos += Length-4 for Length < 4
   NonceLenUnchecked,      \* AEAD.Open is handed a network-supplied nonce of length # 16
   CookieDecodeUnchecked,  \* EncryptedServerCookie.Decode indexes / slices without bounds checks
   PacketOverflowUnchecked,\* nts.EncodePacket: fields that do not fit MaxPacketLen
   ShortUniqueIdEchoed,    \* server echoes a unique id of < 32 bytes: UniqueIdentifier.pack fails, EncodePacket panics
-  CsptpShortDatagram      \* CSPTPClientIP: buf[MinMessageLength:] on a datagram shorter than 44 bytes
+  CsptpShortDatagram,     \* CSPTPClientIP: buf[MinMessageLength:] on a datagram shorter than 44 bytes
+  \* ---- SCION
+  ScionReverseUnchecked,  \* server: panic(err) when Path.Reverse() fails (unassigned path type, empty SCION path, ...)
+  ScionAddrLenUnchecked,  \* netip.AddrFromSlice on an 8- or 12-byte host address: panic (server and client compareIPs)
+  ScionAuthOptUnchecked,  \* scion.PacketAuthOptMetadata panics on an authenticator option whose data is not 28 bytes
+  ScionMacErrPanics,      \* server: panic(err) when spao.ComputeAuthCMAC fails (it does for unassigned path types)
+  ScionTsOptUnchecked,    \* client: option 253 is parsed as control-message bytes (udp.TimestampFromOOBData): its panic
+                          \* sites and an unchecked re-slice are reachable from the network
+  ScionTsOptTrusted       \* client: the receive time taken from option 253 is not checked against the transmit time:
+                          \* ntp.ValidateResponseTimestamps panics ("unexpected system clock behavior") when t3 < t0
 
 \* nts.MaxPacketLen: size of an encoded NTS packet and of the NTS client's receive buffer
 \* (1024 in the tree this module was first written against; 1280 since 2504fca)
 MaxPacketLen == 1280
 
-AllKinds == {"ipsrv", "ipcli", "kesrv", "csptpsrv", "csptpcli"}
-IsClientKind(k) == k \in {"ipcli", "csptpcli"}
+AllKinds == {"ipsrv", "ipcli", "kesrv", "csptpsrv", "csptpcli", "scsrv", "sccli"}
+IsClientKind(k) == k \in {"ipcli", "csptpcli", "sccli"}
 
 (***************************************************************************)
 (* Records.  "na" = not looked at by the code on this path (the            *)
@@ -72,7 +89,10 @@ G0 == [sz |-> "na", src |-> "na", fs |-> << >>, end |-> "na", ck |-> "na",
        an |-> "na", ac |-> "na", av |-> "na", inner |-> "na", uidm |-> "na",
        org |-> "na", b0 |-> "na", meta |-> "na", ts |-> "na",
        \* CSPTP
-       ml |-> "na", mt |-> "na", seq |-> "na", tlv |-> "na"]
+       ml |-> "na", mt |-> "na", seq |-> "na", tlv |-> "na",
+       \* SCION
+       cp |-> "na", sc |-> "na", da |-> "na", sa |-> "na", ia |-> "na", pt |-> "na", ext |-> "na",
+       eo |-> "na", l4 |-> "na", ul |-> "na", dp |-> "na"]
 
 C0(kind) == [kind |-> kind, auth |-> "na", pre |-> "na", ke |-> << >>, kt |-> "na",
              rs |-> << >>, out |-> "na", site |-> "na"]
@@ -102,7 +122,7 @@ Push(s) == IF s.g = G0 THEN s ELSE [s EXCEPT !.c.rs = Append(@, s.g), !.g = G0]
 \* the input is dropped / reported as an error.  In the clients' receive loops
 \* most failures are retried once (numRetries != maxNumRetries && now < deadline)
 Fail(s, site, retryable) ==
-  IF s.c.kind = "ipcli" /\ retryable /\ Len(s.c.rs) = 0
+  IF s.c.kind \in {"ipcli", "sccli"} /\ retryable /\ Len(s.c.rs) = 0
   THEN [Push(s) EXCEPT !.pc = "Await"]
   ELSE [Push(s) EXCEPT !.pc = "Idle", !.c.out = "dropped", !.c.site = site]
 Serve(s) == [Push(s) EXCEPT !.pc = "Idle", !.c.out = "served", !.c.site = "-"]
@@ -555,6 +575,218 @@ CsCliSucc(s, sc) ==
     [] OTHER -> {}
 
 (***************************************************************************)
+(* SCION datagrams (slayers.SCION, extension and L4 layers)                *)
+(*   sc : common/address header against the buffer                         *)
+(*        cmnshort (< 12 bytes) | addrshort (ends inside the address       *)
+(*        header) | hdrneg (HdrLen*4 smaller than common + address header) *)
+(*        | hdrbig (HdrLen*4 beyond the buffer) | ok                       *)
+(*   da, sa : DT/DL resp. ST/SL as "t<T>l<bytes>", T in 0..3, bytes in     *)
+(*        {4, 8, 12, 16}; only the length decides what the code does       *)
+(*        (netip.AddrFromSlice takes 4 and 16)                             *)
+(*   pt : path type and shape                                              *)
+(*        empty | emptyjunk (type 0, path bytes present) |                 *)
+(*        s1 s2 s3 (SCION, 1..3 segments) | scurr (CurrINF/CurrHF beyond   *)
+(*        the segments) | sinf0 (all SegLen 0) | sgap (SegLen[0] = 0 <     *)
+(*        SegLen[1]) | shops (> 64 hops) | strunc (shorter than SegLen     *)
+(*        says) | onehop | onehop0 (second hop without ingress interface)  *)
+(*        | onehoptrunc | epic | epicinf0 | epictrunc | raw4 raw255        *)
+(*        (unassigned path type values)                                    *)
+(*   ext: extension chain  none | hbh | e2e | hbhe2e | e2ehbh | e2e2 |     *)
+(*        hbh2 | exttrunc (ExtLen beyond the buffer)                       *)
+(*   eo : options of the e2e extension                                     *)
+(*        none | optbeyond (option length beyond the extension) |          *)
+(*        auth28c (28 bytes, client SPI, AES-CMAC, MAC wrong) | auth28cok  *)
+(*        (MAC verifies) | auth28s (server SPI) | auth28x (other SPI or    *)
+(*        algorithm) | auth0 auth27 auth29 (data length # 28) |            *)
+(*        ts (option 253: one well-formed SCM_TIMESTAMPNS message, time    *)
+(*        now) | tsold (the same, a time long ago) | tsnew (one well-      *)
+(*        formed SO_TIMESTAMPING message) | ts2 (SO_TIMESTAMPING with two  *)
+(*        non-zero timestamps) | tsshort (< 16 bytes) | tslen (cmsg_len    *)
+(*        beyond the data) | tstail (cmsg_len = data length, not a         *)
+(*        multiple of 8) | full (options filling the extension to its      *)
+(*        maximum of 1024 bytes)                                           *)
+(*   l4 : udp | udptrunc (< 8 bytes) | scmpecho | scmptr | scmpother |     *)
+(*        scmptrunc | unk (another protocol number)                        *)
+(*   ul : UDP Length  ok | big (> datagram) | small (8)                    *)
+(*   dp : UDP destination port  ntp (the server's) | endhost (30041) |     *)
+(*        other;   cp: the listener it arrives on  srv | eh                *)
+(***************************************************************************)
+AddrLens == {"l4", "l8", "l12", "l16"}
+AddrAll == {"t0l4", "t0l8", "t0l12", "t0l16", "t1l4", "t1l8", "t1l12", "t1l16",
+            "t2l4", "t2l8", "t2l12", "t2l16", "t3l4", "t3l8", "t3l12", "t3l16"}
+AddrNarrow == {"t0l4", "t0l8", "t0l12", "t0l16", "t1l4", "t2l8", "t3l12"}
+AddrDom == IF Wide THEN AddrAll ELSE AddrNarrow
+AddrT0 == {"t0l4", "t0l8", "t0l12", "t0l16"}
+Is4or16(a) == a \in {"t0l4", "t1l4", "t2l4", "t3l4", "t0l16", "t1l16", "t2l16", "t3l16"}
+Is4(a) == a \in {"t0l4", "t1l4", "t2l4", "t3l4"}
+PtDecodeErr == {"emptyjunk", "sgap", "shops", "strunc", "onehoptrunc", "epictrunc"}
+PtReverseErr == {"sinf0", "onehop0", "epicinf0", "raw4", "raw255"}
+PtOk == {"empty", "s1", "s2", "s3", "scurr", "onehop", "epic"}
+PtDom == IF Wide THEN PtDecodeErr \cup PtReverseErr \cup PtOk
+         ELSE {"empty", "s2", "scurr", "onehop", "epic", "emptyjunk", "strunc", "sinf0", "onehop0", "raw4", "raw255"}
+ExtDom == {"none", "hbh", "e2e", "hbhe2e", "e2ehbh", "e2e2", "hbh2", "exttrunc"}
+ExtHasE2E(x) == x \in {"e2e", "hbhe2e"}     \* decoded[len-2] is the e2e extension
+EoAuthBadLen == {"auth0", "auth27", "auth29"}
+EoTsPanics == {"ts2", "tstail"}
+EoSrv == {"none", "optbeyond", "auth28c", "auth28cok", "auth28s", "auth28x", "ts", "full"} \cup
+         (IF Wide THEN EoAuthBadLen ELSE {"auth27", "auth0"})
+EoCli == {"none", "optbeyond", "auth28s", "auth28sok", "auth28c", "auth28x", "auth27", "ts", "tsold", "tsnew",
+          "tsshort", "tslen"} \cup EoTsPanics \cup (IF Wide THEN EoAuthBadLen ELSE {})
+L4Dom == {"udp", "udptrunc", "scmpecho", "scmptr", "scmpother", "scmptrunc", "unk"}
+
+\* t-wise constraint: a SCION datagram has the dimensions listener/port, addresses, path, extensions,
+\* L4, UDP length, NTP size, first byte, IA, origin, metadata, timestamps; at most ScDev of them
+\* deviate from the canonical datagram (plain IPv4 addresses, empty path, no extension, UDP to the
+\* server port, a valid NTP packet) at the same time.
+B2N(b) == IF b THEN 1 ELSE 0
+DevCount(g) ==
+  B2N(g.cp = "eh" \/ g.dp \notin {"na", "ntp"}) + B2N(g.da \notin {"na", "t0l4"} \/ g.sa \notin {"na", "t0l4"}) +
+  B2N(g.pt \notin {"na", "empty"}) + B2N(g.ext \notin {"na", "none"}) + B2N(g.l4 \notin {"na", "udp"}) +
+  B2N(g.ul \notin {"na", "ok"}) + B2N(g.sz \notin {"na", "s48"}) + B2N(g.b0 \notin {"na", "v4c"}) +
+  B2N(g.ia \notin {"na", "ok"}) + B2N(g.org \notin {"na", "match"}) + B2N(g.meta \notin {"na", "ok"}) +
+  B2N(g.ts \notin {"na", "ok"}) + B2N(g.sc \notin {"na", "ok"})
+\* `same`: the field belongs to a dimension that already deviates
+Lim(g, Dom, canon, same) == IF DevCount(g) >= ScDev /\ ~same THEN Dom \cap {canon} ELSE Dom
+
+\* slayers decoding up to the validType check; shared by server and client.
+\* One reveal per step; `after` is the pc once the last layer is known to be UDP or SCMP.
+ScDecode(s, sc, eoDom, retry, strictPath, after) ==
+  LET g == s.g IN
+  IF g.sc = "na" THEN
+    {IF z # "ok" THEN Fail([s EXCEPT !.g.sc = z], "slayers.SCION.DecodeFromBytes", retry) ELSE [s EXCEPT !.g.sc = z]
+     : z \in PickG(s, sc, "sc", Lim(g, {"cmnshort", "addrshort", "hdrneg", "hdrbig", "ok"}, "ok", FALSE))}
+  ELSE IF g.da = "na" THEN {[s EXCEPT !.g.da = a] : a \in PickG(s, sc, "da", Lim(g, AddrDom, "t0l4", FALSE))}
+  \* pairwise: all 16 type/length values of one address next to a plain IPv4 one, all length pairs
+  ELSE IF g.sa = "na" THEN {[s EXCEPT !.g.sa = a] : a \in PickG(s, sc, "sa", Lim(g, IF g.da = "t0l4" THEN AddrDom ELSE AddrT0, "t0l4", g.da # "t0l4"))}
+  ELSE IF g.pt = "na" THEN
+    \* the server's layer recycles path objects and keeps unassigned path types as raw bytes; the
+    \* client's does not (path.NewPath: "unsupported path")
+    {IF p \in PtDecodeErr \/ (strictPath /\ p \in {"raw4", "raw255"})
+     THEN Fail([s EXCEPT !.g.pt = p], "slayers.path.DecodeFromBytes", retry) ELSE [s EXCEPT !.g.pt = p]
+     : p \in PickG(s, sc, "pt", Lim(g, PtDom, "empty", FALSE))}
+  ELSE IF g.ext = "na" THEN
+    {IF x = "exttrunc" THEN Fail([s EXCEPT !.g.ext = x], "slayers.extn.DecodeFromBytes", retry)
+     ELSE IF x \in {"e2ehbh", "e2e2", "hbh2"} THEN Fail([s EXCEPT !.g.ext = x], "validType", retry)
+     ELSE [s EXCEPT !.g.ext = x]
+     : x \in PickG(s, sc, "ext", Lim(g, ExtDom, "none", FALSE))}
+  ELSE IF g.eo = "na" /\ g.ext \in {"e2e", "hbhe2e"} THEN
+    {IF o = "optbeyond" THEN Fail([s EXCEPT !.g.eo = o], "slayers.extn.DecodeFromBytes", retry) ELSE [s EXCEPT !.g.eo = o]
+     : o \in PickG(s, sc, "eo", eoDom)}
+  ELSE
+    {IF l \in {"udptrunc", "scmptrunc"} THEN Fail([s EXCEPT !.g.l4 = l], "slayers.l4.DecodeFromBytes", retry)
+     ELSE IF l = "unk" THEN Fail([s EXCEPT !.g.l4 = l], "validType", retry)
+     ELSE [s EXCEPT !.g.l4 = l, !.pc = after]
+     : l \in PickG(s, sc, "l4", Lim(g, L4Dom, "udp", FALSE))}
+
+(***************************************************************************)
+(* scsrv                                                                   *)
+(***************************************************************************)
+ScReverse(s, thenServe) ==    \* scionLayer.Path.Reverse(); if err != nil { panic(err) }
+  IF s.g.pt \in PtReverseErr
+  THEN (IF ScionReverseUnchecked THEN Die(s, "slayers.path.Reverse") ELSE Fail(s, "slayers.path.Reverse", FALSE))
+  ELSE thenServe
+ScSrvSucc(s, sc) ==
+  LET g == s.g IN
+  CASE s.pc = "Idle" ->           \* which listener: the server port or the end-host port 30041
+        {[s EXCEPT !.g.cp = p, !.pc = "Parsed"] : p \in PickG(s, sc, "cp", {"srv", "eh"})}
+    [] s.pc = "Parsed" -> ScDecode(s, sc, EoSrv, FALSE, FALSE, "Classified")
+    [] s.pc = "Classified" ->
+        IF g.l4 \in {"scmpecho", "scmptr"} THEN {ScReverse(s, Serve(s))}     \* SCMP responder
+        ELSE IF g.l4 = "scmpother" THEN {Fail(s, "scmp:type", FALSE)}
+        ELSE UNION {                                                          \* UDP
+          IF u = "big" THEN {Fail([s EXCEPT !.g.ul = u], "udp:length", FALSE)}
+          \* netip.AddrFromSlice(RawSrcAddr / RawDstAddr)
+          ELSE IF ~Is4or16(g.sa) \/ ~Is4or16(g.da)
+            THEN {IF ScionAddrLenUnchecked THEN Die([s EXCEPT !.g.ul = u], "netip.AddrFromSlice")
+                                           ELSE Fail([s EXCEPT !.g.ul = u], "netip.AddrFromSlice", FALSE)}
+          ELSE {LET s1 == [s EXCEPT !.g.ul = u, !.g.dp = d] IN
+                IF d # "ntp"
+                THEN (IF g.cp = "srv" \/ d = "endhost" THEN Fail(s1, "forward:port", FALSE)
+                      \* end-host forwarder: the datagram goes to (destination host, destination port)
+                      ELSE IF Is4(g.da) THEN Serve(s1) ELSE Fail(s1, "forward:write", FALSE))
+                ELSE [s1 EXCEPT !.pc = "Authenticated"]
+                : d \in PickG(s, sc, "dp", Lim([g EXCEPT !.ul = u], {"ntp", "endhost", "other"}, "ntp", g.cp = "eh"))}
+          : u \in PickG(s, sc, "ul", Lim(g, {"ok", "big", "small"}, "ok", FALSE))}
+    [] s.pc = "Authenticated" ->  \* e2eLayer.FindOption(OptTypeAuthenticator), PacketAuthOptMetadata, CMAC
+        IF ExtHasE2E(g.ext) /\ g.eo \in EoAuthBadLen
+        THEN {IF ScionAuthOptUnchecked THEN Die(s, "scion.PacketAuthOptMetadata") ELSE Fail(s, "scion.PacketAuthOptMetadata", FALSE)}
+        \* client SPI and AES-CMAC: the MAC is computed; spao cannot serialise a path of unassigned type
+        ELSE IF ExtHasE2E(g.ext) /\ g.eo \in {"auth28c", "auth28cok"} /\ g.pt \in {"raw4", "raw255"}
+        THEN {IF ScionMacErrPanics THEN Die(s, "spao.ComputeAuthCMAC") ELSE Fail(s, "spao.ComputeAuthCMAC", FALSE)}
+        ELSE IF ExtHasE2E(g.ext) /\ g.eo = "auth28c" THEN {Fail(s, "spao:mac", FALSE)}
+        ELSE {[s EXCEPT !.pc = "Decoded"]}
+    [] s.pc = "Decoded" ->        \* ntp.DecodePacket, ntp.ValidateRequest
+        \* (slayers.UDP cuts the payload at the Length field: Length = 8 leaves nothing)
+        IF g.ul = "small" THEN {Fail(s, "ntp.DecodePacket:size", FALSE)}
+        ELSE UNION {
+          IF z = "s47" THEN {Fail([s EXCEPT !.g.sz = z], "ntp.DecodePacket:size", FALSE)}
+          ELSE {IF b \in B0Bad THEN Fail([s EXCEPT !.g.sz = z, !.g.b0 = b], "ntp.ValidateRequest", FALSE)
+                                ELSE [s EXCEPT !.g.sz = z, !.g.b0 = b, !.pc = "Validated"]
+                : b \in PickG(s, sc, "b0", Lim([g EXCEPT !.sz = z], {"v4c", "v4srv"}, "v4c", FALSE))}
+          : z \in PickG(s, sc, "sz", Lim(g, {"s47", "s48"}, "s48", FALSE))}
+    [] s.pc = "Validated" -> {ScReverse(s, [s EXCEPT !.pc = "Handled"])}   \* handleRequest, reply path
+    [] s.pc = "Handled" -> {[s EXCEPT !.pc = "Sent"]}
+    [] s.pc = "Sent" -> {Serve(s)}
+    [] OTHER -> {}
+
+(***************************************************************************)
+(* sccli: one call of measureClockOffsetSCION (same-AS empty path),        *)
+(* c.auth = the client's SPAO authentication (a key is available)          *)
+(***************************************************************************)
+ScCliFull(s) == Len(s.c.rs) = 0 \/ (Len(s.c.rs) = 1 /\ s.c.rs[1].sc = "cmnshort")
+ScCliSucc(s, sc) ==
+  LET g == s.g  c == s.c  full == ScCliFull(s) IN
+  CASE s.pc = "Idle" ->
+        {[s EXCEPT !.c.auth = a, !.pc = "Await"] : a \in PickC(sc, "auth", {"no", "yes"})}
+    [] s.pc = "Await" ->          \* ReadMsgUDPAddrPort until the deadline
+        {IF z = "none" THEN Fail([s EXCEPT !.g.sz = z], "read:deadline", FALSE)
+                       ELSE [s EXCEPT !.g.sz = z, !.pc = "Parsed"]
+         : z \in PickG(s, sc, "sz", Sub({"none", "s47", "s48"}, {"s48"}, full))}   \* (none, s47: one deviation)
+    [] s.pc = "Parsed" ->
+        IF full THEN ScDecode(s, sc, EoCli, TRUE, TRUE, "Classified")
+        ELSE {[s EXCEPT !.g.sc = "ok", !.g.da = "t0l4", !.g.sa = "t0l4", !.g.pt = "empty", !.g.ext = "none",
+                        !.g.l4 = "udp", !.pc = "Classified"]}
+    [] s.pc = "Classified" ->     \* SCMP; UDP length; validSrc, validDst (both evaluated)
+        IF g.l4 # "udp" THEN {Fail(s, "scmp", TRUE)}
+        ELSE UNION {
+          IF u = "big" THEN {Fail([s EXCEPT !.g.ul = u], "udp:length", TRUE)}
+          ELSE {LET s1 == [s EXCEPT !.g.ul = u, !.g.ia = i] IN
+                \* SrcIA == remote IA && compareIPs(...): the comparison runs only when the IA matches
+                IF (i # "src" /\ ~Is4or16(g.sa)) \/ (i # "dst" /\ ~Is4or16(g.da))
+                THEN (IF ScionAddrLenUnchecked THEN Die(s1, "client.compareIPs") ELSE Fail(s1, "client.compareIPs", TRUE))
+                \* an address of the right length that is not the peer's (every class but the plain IPv4 one)
+                ELSE IF i # "ok" \/ g.sa # "t0l4" \/ g.da # "t0l4" THEN Fail(s1, "address", TRUE)
+                ELSE [s1 EXCEPT !.pc = "Authenticated"]
+                : i \in PickG(s, sc, "ia", Sub(Lim([g EXCEPT !.ul = u], {"ok", "src", "dst"}, "ok", FALSE), {"ok"}, full))}
+          : u \in PickG(s, sc, "ul", Sub(Lim(g, {"ok", "big", "small"}, "ok", FALSE), {"ok"}, full))}
+    [] s.pc = "Authenticated" ->  \* option 253, then the authenticator
+        IF ~ExtHasE2E(g.ext) THEN {[s EXCEPT !.pc = "Decoded"]}
+        ELSE IF g.eo \in EoTsPanics
+          THEN {IF ScionTsOptUnchecked THEN Die(s, "udp.TimestampFromOOBData") ELSE [s EXCEPT !.pc = "Decoded"]}
+        ELSE IF c.auth = "yes" /\ g.eo \in EoAuthBadLen
+          THEN {IF ScionAuthOptUnchecked THEN Die(s, "scion.PacketAuthOptMetadata") ELSE Fail(s, "scion.PacketAuthOptMetadata", TRUE)}
+        ELSE IF c.auth = "yes" /\ g.eo = "auth28s" THEN {Fail(s, "spao:mac", TRUE)}
+        ELSE {[s EXCEPT !.pc = "Decoded"]}
+    [] s.pc = "Decoded" ->        \* ntp.DecodePacket, origin, metadata, timestamps
+        IF g.sz = "s47" \/ g.ul = "small" THEN {Fail(s, "ntp.DecodePacket:size", TRUE)}
+        ELSE UNION {
+          IF o = "other" THEN {Fail([s EXCEPT !.g.org = o], "origin", TRUE)}
+          ELSE UNION {
+            IF m # "ok" THEN {Fail([s EXCEPT !.g.org = o, !.g.meta = m], "ntp.ValidateResponseMetadata", FALSE)}
+            \* t3 is the time found in option 253 when there is one
+            \* (repaired: a time outside [transmit time, socket receive time] is not taken over)
+            ELSE IF ExtHasE2E(g.ext) /\ g.eo = "tsold" /\ ScionTsOptTrusted
+              THEN {Die([s EXCEPT !.g.org = o, !.g.meta = m], "ntp.ValidateResponseTimestamps:panic")}
+            ELSE {IF t = "neg" THEN Fail([s EXCEPT !.g.org = o, !.g.meta = m, !.g.ts = t], "ntp.ValidateResponseTimestamps", FALSE)
+                               ELSE [s EXCEPT !.g.org = o, !.g.meta = m, !.g.ts = t, !.pc = "Validated"]
+                  : t \in PickG(s, sc, "ts", Sub(Lim([g EXCEPT !.org = o, !.meta = m], {"ok", "neg"}, "ok", FALSE), {"ok"}, full))}
+            : m \in PickG(s, sc, "meta", Sub(Lim([g EXCEPT !.org = o], {"ok", "li3", "str0"}, "ok", FALSE), {"ok"}, full))}
+          : o \in PickG(s, sc, "org", Sub(Lim(g, {"match", "other"}, "match", FALSE), {"match"}, full))}
+    [] s.pc = "Validated" -> {[s EXCEPT !.pc = "Handled"]}
+    [] s.pc = "Handled" -> {Serve(s)}
+    [] OTHER -> {}
+
+(***************************************************************************)
 (* Transition function                                                     *)
 (***************************************************************************)
 Succ(s, sc) ==
@@ -564,6 +796,8 @@ Succ(s, sc) ==
          [] s.c.kind = "kesrv" -> KeSrvSucc(s, sc)
          [] s.c.kind = "csptpsrv" -> CsSrvSucc(s, sc)
          [] s.c.kind = "csptpcli" -> CsCliSucc(s, sc)
+         [] s.c.kind = "scsrv" -> ScSrvSucc(s, sc)
+         [] s.c.kind = "sccli" -> ScCliSucc(s, sc)
          [] OTHER -> {}
 
 \* the well-formed request / exchange sent after every crafted input
@@ -574,6 +808,11 @@ Sentinel(kind) ==
     [] kind = "ipcli" -> [C0(kind) EXCEPT !.auth = "no", !.rs = <<GoodCliDgram>>]
     [] kind = "kesrv" -> [C0(kind) EXCEPT !.pre = "tls", !.ke = <<"np", "aead">>, !.kt = "eom"]
     [] kind = "csptpsrv" -> [C0(kind) EXCEPT !.rs = <<[G0 EXCEPT !.sz = "min", !.ml = "len", !.mt = "sync319"]>>]
+    [] kind = "scsrv" -> [C0(kind) EXCEPT !.rs = <<[G0 EXCEPT !.cp = "srv", !.sc = "ok", !.da = "t0l4", !.sa = "t0l4",
+          !.pt = "empty", !.ext = "none", !.l4 = "udp", !.ul = "ok", !.dp = "ntp", !.sz = "s48", !.b0 = "v4c"]>>]
+    [] kind = "sccli" -> [C0(kind) EXCEPT !.auth = "no", !.rs = <<[G0 EXCEPT !.sz = "s48", !.sc = "ok", !.da = "t0l4",
+          !.sa = "t0l4", !.pt = "empty", !.ext = "none", !.l4 = "udp", !.ul = "ok", !.ia = "ok", !.org = "match",
+          !.meta = "ok", !.ts = "ok"]>>]
     [] kind = "csptpcli" -> [C0(kind) EXCEPT !.rs =
           <<[G0 EXCEPT !.sz = "min", !.ml = "len", !.seq = "match", !.mt = "sync", !.src = "ok", !.ts = "acc"],
             [G0 EXCEPT !.sz = "tlvds", !.ml = "len", !.seq = "match", !.mt = "fup", !.src = "ok", !.tlv = "okds", !.ts = "acc"]>>]
